@@ -28,6 +28,7 @@ def check(ctx):
         cfgs += [dict(D="SC", NFiles=2, MaxChunk=2, MaxSteps=8, MaxDup=0, Ver=0), dict(D="HLJ", NFiles=1, MaxChunk=3, MaxSteps=9, MaxDup=1, Ver=0)]
     ac.mc_attach(ctx, cfgs, extra_replay_args=["parse9212"])
     ac.trace_attach(ctx, 1000 if thorough else 120)
+    ac.big_uploads(ctx)
     ctx.cov["rule"] = ("MC_Miss: all file sizes 1..MaxSize x all sets of pairwise disjoint chunks (each set generated once, left to right); "
                        "MissExact checked on the spec and each case replayed on the exported range computation. MC_Attach sessions end in "
                        "0x1212 -> resend -> 0x1212 and compare the 0x9212 bytes on the wire; P0x9212.Parse must read the same ranges.")
@@ -39,6 +40,8 @@ def check(ctx):
 def replay(ctx, path):
     ctx.build()
     r = json.load(open(path))["replay"]
+    if str(r.get("kind", "")).startswith("large-upload"):      # the large sessions are cheap: all of them are run again
+        ctx.build(); ac.big_uploads(ctx); return
     if "case" in r and "chunks" in r["case"]:
         f = os.path.join(ctx.scratch, "one.ndjson"); open(f, "w").write(json.dumps(r["case"]) + "\n")
         out = os.path.join(ctx.scratch, "one_res.ndjson")
